@@ -473,6 +473,104 @@ fn display_targeted(r: &mut Rng) -> Model {
     gen_model::build(OptimizationType::Min, v("x"), vec![Constraint::new(lhs, cmp, k(1.0 + r.below(3) as f64), String::new())], &ds)
 }
 
+/// TEXT door (`parse_and_transform` → `Linearizer::linearize`): what the compiled model owes to the SOURCE TEXT, judged
+/// against the generator's own knowledge of the program (the oracle's clauses read the transformed `Model`, so a defect
+/// of the front end that loses an occurrence or changes a constant before the `Model` exists is invisible to them).
+fn text_compile(src: &str) -> Option<Model> {
+    std::panic::catch_unwind(std::panic::AssertUnwindSafe(|| rooc::RoocParser::new(src.to_string()).parse_and_transform(vec![], &indexmap::IndexMap::new()))).ok()?.ok()
+}
+
+/// every variable that OCCURS in the source text has a column and a domain entry, also when all its occurrences carry
+/// a zero coefficient — a literal `0`, a named zero constant, a zero entry of a data table, on either side of the
+/// product (seeded C08-13: the right factor of `0 * y` was never expanded, so `y` lost its usage mark).
+fn zero_coefficient_text_case(r: &mut Rng) -> Case {
+    let mut expected: Vec<String> = vec![];
+    let src = if r.chance(1, 2) {
+        // knapsack-shaped data program: coefficient tables with zeros at the same index
+        let n = 2 + r.below(4);
+        let z = r.below(n);
+        let tab = |r: &mut Rng, zero_at: usize| (0..n).map(|i| if i == zero_at || r.chance(1, 4) { "0".to_string() } else { format!("{}", 1 + r.below(9)) }).collect::<Vec<_>>().join(", ");
+        let (p, w) = (tab(r, z), tab(r, z));
+        for i in 0..n { expected.push(format!("x_{}", i)); }
+        let dir = if r.chance(1, 2) { "max" } else { "min" };
+        let prod = |t: &str, r: &mut Rng| if r.chance(3, 4) { format!("{}[i] * x_i", t) } else { format!("x_i * {}[i]", t) };
+        format!("{} sum(i in 0..{}) {{ {} }}\ns.t.\n    cap: sum(i in 0..{}) {{ {} }} <= {}\nwhere\n    let profit = [{}]\n    let weight = [{}]\ndefine\n    x_i as {} for i in 0..{}\n",
+            dir, n, prod("profit", r), n, prod("weight", r), 5 + r.below(10), p, w, if r.chance(1, 2) { "Boolean" } else { "IntegerRange(0, 3)" }, n)
+    } else {
+        let names = ["x", "y", "z", "w", "u"];
+        let nv = 2 + r.below(4);
+        let mut term = |r: &mut Rng, v: &str| -> String {
+            match r.below(8) {
+                0 | 1 => format!("0 * {}", v),
+                2 => format!("c0 * {}", v),
+                3 => format!("t[1] * {}", v),
+                4 => format!("{} * 0", v),
+                5 => format!("0.0 * {}", v),
+                _ => format!("{} * {}", 1 + r.below(5), v),
+            }
+        };
+        let mut obj: Vec<String> = vec![];
+        let mut con: Vec<String> = vec![];
+        for v in names.iter().take(nv) {
+            expected.push(v.to_string());
+            let t = term(r, v);
+            // one occurrence only, so that a lost occurrence is a lost variable
+            if r.chance(1, 2) { obj.push(t); } else { con.push(t); }
+        }
+        if nv >= 3 && r.chance(1, 2) { obj.push(format!("0 * ({} + {})", names[0], names[1])); }
+        if obj.is_empty() { obj.push("1".into()); }
+        if con.is_empty() { con.push("0".into()); }
+        format!("min {}\ns.t.\n    {} <= 7\nwhere\n    let c0 = 0\n    let t = [2, 0]\ndefine\n    {} as Real(-5, 5)\n", obj.join(" + "), con.join(" + "), expected.join(", "))
+    };
+    let m = match text_compile(&src) {
+        Some(m) => m,
+        None => { let mut c = Case::default(); c.req = "linerr-display (err fuel) \"\" \"\" \"\" \"\"".into(); c.imp = sx::q("fuel"); c.show = src.replace('\n', " ; "); c.tags = vec!["text-zero-coefficient".into(), "text-rejected".into()]; c.impl_violation = Some("the generated text program does not transform".into()); return c; }
+    };
+    let mut c = crate::props::c01::one(&m, "text-zero-coefficient", "c08");
+    c.show = src.replace('\n', " ; ");
+    match Linearizer::linearize(m) {
+        Ok(lm) => {
+            for v in &expected {
+                if !lm.variables().contains(v) || !lm.domain().contains_key(v) {
+                    c.impl_violation = Some(format!("the variable {} occurs in the source text but has no column / domain entry in the compiled model (variables {:?})", v, lm.variables()));
+                    break;
+                }
+            }
+        }
+        Err(e) => { c.impl_violation = Some(format!("the generated text program does not compile: {}", e)); }
+    }
+    c
+}
+
+/// a declared bound written with the std constant `Infinity` / `MinusInfinity` is an INFINITE bound: an exact
+/// lowering that needs it (`max abs{x}`, `z = max{x, y}`, `z = min{x, y}`) must fail with MissingFiniteBounds naming
+/// the variable (seeded C08-14: the constants became ±f64::MAX, the lowering proceeded with big-M ≈ 1.8e308).
+fn infinity_constant_text_case(r: &mut Rng) -> Case {
+    let k = 1 + r.below(20);
+    let (decl, body, culprit): (String, String, &str) = match r.below(4) {
+        0 => (format!("x as Real(-{}, Infinity)", k), "max abs{ x }\ns.t.\n    x >= -3".into(), "x"),
+        1 => (format!("x as Real(MinusInfinity, {})", k), "max abs{ x }\ns.t.\n    x <= 3".into(), "x"),
+        2 => (format!("x as Real(-{}, Infinity)\n    y as Real(0, 4)\n    z as Real", k), "min z\ns.t.\n    z = max{ x, y }".into(), "x"),
+        _ => (format!("x as Real(MinusInfinity, {})\n    y as Real(0, 4)\n    z as Real", k), "max z\ns.t.\n    z = min{ x, y }".into(), "x"),
+    };
+    let src = format!("{}\ndefine\n    {}\n", body, decl);
+    let m = match text_compile(&src) {
+        Some(m) => m,
+        None => { let mut c = Case::default(); c.req = "linerr-display (err fuel) \"\" \"\" \"\" \"\"".into(); c.imp = sx::q("fuel"); c.show = src.replace('\n', " ; "); c.tags = vec!["text-infinity-constant".into(), "text-rejected".into()]; c.impl_violation = Some("the generated text program does not transform".into()); return c; }
+    };
+    let mut c = crate::props::c01::one(&m, "text-infinity-constant", "c08");
+    c.show = src.replace('\n', " ; ");
+    // the declared bound must arrive as an IEEE infinity
+    let inf_ok = m.domain().get(culprit).map(|d| match *d.get_type() { VariableType::Real(lo, hi) => lo.is_infinite() || hi.is_infinite(), _ => false }).unwrap_or(false);
+    if !inf_ok { c.impl_violation = Some(format!("the bound of {} written with Infinity / MinusInfinity is not infinite in the model: {:?}", culprit, m.domain().get(culprit).map(|d| *d.get_type()))); return c; }
+    match Linearizer::linearize(m) {
+        Err(LinearizationError::MissingFiniteBounds { variables, .. }) if variables.iter().any(|v| v == culprit) => {}
+        Err(e) => { c.impl_violation = Some(format!("expected MissingFiniteBounds naming {}, got: {}", culprit, e)); }
+        Ok(_) => { c.impl_violation = Some(format!("an exact lowering over the infinite declared bound of {} succeeded (expected MissingFiniteBounds)", culprit)); }
+    }
+    c
+}
+
 pub fn generate(seed: u64, n: usize, thorough: bool, corpus: Option<&str>) -> Vec<Case> {
     let mut out = crate::props::c01::generate_for("c08", seed.wrapping_add(2000), n, thorough, corpus);
     let mut r = Rng::new(seed ^ 0xC08).fork();
@@ -507,6 +605,10 @@ pub fn generate(seed: u64, n: usize, thorough: bool, corpus: Option<&str>) -> Ve
     }
     for _ in 0..(n / 20).max(20) { out.push(overflow_case(&mut r)); }
     for _ in 0..(n / 10).max(60) { out.push(tiny_divisor_case(&mut r)); }
+    // text door, own fork of the generator and fixed block sizes (independent of the streams above)
+    let mut rt = Rng::new(seed ^ 0xC08_7E87).fork();
+    for _ in 0..80 { out.push(zero_coefficient_text_case(&mut rt)); }
+    for _ in 0..40 { out.push(infinity_constant_text_case(&mut rt)); }
     for i in 0..(n / 5).max(60) {
         let (tag, cfg) = &cfgs[i % cfgs.len()];
         out.push(name_order_case(&mut r, tag, cfg));
